@@ -1332,6 +1332,25 @@ impl Server {
                     Some(RequestType::HardStop(_)) => {
                         let req_id = request.id.clone();
                         self.notify(request);
+                        // answers still queued for the requests handled before this
+                        // one would be lost with the worker: they leave first
+                        QUEUE.with(|queue| {
+                            for response in queue.borrow_mut().drain(..) {
+                                if let Err(e) = self.channel.write_message(&response) {
+                                    error!("Could not send response to the main process: {}", e);
+                                }
+                            }
+                        });
+                        // a soft stop still being served will never reach its own
+                        // completion: it gets its one final answer here
+                        if let Some(soft_stop_id) = self.shutting_down.take() {
+                            if let Err(e) = self.channel.write_message(&worker_response_error(
+                                soft_stop_id,
+                                "soft stop interrupted by a hard stop",
+                            )) {
+                                error!("Could not send response to the main process: {}", e);
+                            }
+                        }
                         if let Err(e) = self.channel.write_message(&WorkerResponse::ok(req_id)) {
                             error!("Could not send ok response to the main process: {}", e);
                         }
@@ -1341,9 +1360,19 @@ impl Server {
                         return true;
                     }
                     Some(RequestType::SoftStop(_)) => {
-                        self.shutting_down = Some(request.id.clone());
-                        self.last_sessions_len = self.sessions.borrow().slab.len();
-                        self.notify(request);
+                        if let Some(first) = self.shutting_down.as_ref() {
+                            // only one id can be answered when the sessions have
+                            // drained: a second soft stop is refused, it must not
+                            // take the place of the first
+                            push_queue(worker_response_error(
+                                request.id,
+                                format!("already shutting down (soft stop {first})"),
+                            ));
+                        } else {
+                            self.shutting_down = Some(request.id.clone());
+                            self.last_sessions_len = self.sessions.borrow().slab.len();
+                            self.notify(request);
+                        }
                     }
                     Some(RequestType::ReturnListenSockets(_)) => {
                         info!("received ReturnListenSockets order");
